@@ -189,6 +189,15 @@ func (m *Model) Painted(all bool) {
 	}
 }
 
+// ResetPaint forgets what was painted (the library rebuilt its cell buffer:
+// every cell is painted afresh by the next Show).
+func (m *Model) ResetPaint() {
+	for i := range m.Cells {
+		m.Cells[i].PaintOK = false
+		m.Cells[i].PaintDefs = nil
+	}
+}
+
 // Repainted is Painted(true).
 func (m *Model) Repainted() { m.Painted(true) }
 
